@@ -460,8 +460,12 @@ fn gen_delegation_method<'s>(
         .params
         .iter()
         .filter_map(|param| match param {
-            syn::GenericParam::Type(type_param) => Some(&type_param.ident),
-            syn::GenericParam::Const(const_param) => Some(&const_param.ident),
+            syn::GenericParam::Type(type_param) => Some(type_param.ident.to_token_stream()),
+            // (in braces: a bare `N` would be read as a type of that name, should the scope have one)
+            syn::GenericParam::Const(const_param) => {
+                let ident = &const_param.ident;
+                Some(quote! { { #ident } })
+            }
             syn::GenericParam::Lifetime(_) => None,
         })
         .collect();
